@@ -99,3 +99,18 @@ func callName(ci ssa.CallInstruction) string {
 	id := ssax.FuncID(ssax.CalleeObj(ci))
 	return strings.ReplaceAll(id, load.Module+"/", "")
 }
+
+
+// moduleClosure returns fn and every module function it may call, transitively (VTA call graph: function values kept in
+// tables and generic instances are followed, dependencies are not entered). Used where a rule reads off what a decoding
+// entry point can produce: the work may be spread over helpers chosen through a table.
+func (c *Ctx) moduleClosure(fn *ssa.Function) []*ssa.Function {
+	var out []*ssa.Function
+	c.reaches(fn, func(f *ssa.Function) bool {
+		if load.InModule(f) && len(f.Blocks) > 0 {
+			out = append(out, f)
+		}
+		return false
+	})
+	return out
+}
